@@ -154,7 +154,8 @@ def check(run: Run, ctx) -> None:
                        "{a,b,A,B,0,1,_,-,space,.,$,é,用} exhaustively, plus seeded longer samples and random Unicode; a case is "
                        "distinct by (function,input) and non-trivial when the derived name differs from the input; "
                        "suffix loops: random namespaces from colliding pools, non-trivial when at least one suffix was assigned; "
-                       "e2e: seeded documents with keyword-like tags (import, global, class, async, None) and the tag `config` -> generated package imported, "
+                       "e2e: seeded documents with keyword-like tags (import, global, class, async, None) and the tags named like APIClient's own members "
+                       "(config; request, close, transport, base-url, self - F64 repaired) -> generated package imported, "
                        "APIClient constructed, every tag attribute a non-keyword identifier yielding its tag client")
     run.assumptions += [
         "CPython's \\w / str.lower / str.upper / str.isdigit for non-ASCII characters are supplied to the model by the harness "
@@ -198,6 +199,11 @@ def check(run: Run, ctx) -> None:
     known.report_unreplayed()
 
 
+# classes of C07.judge that concern the derived identifiers ("apiclient-properties": a tag attribute that is not a property of the finished
+# APIClient any more - another member of the class took its name)
+E2E_CLASSES = ("apiclient-property-name", "apiclient-unreachable", "apiclient-properties", "method-name")
+
+
 def e2e_identifiers(run, ctx, known) -> None:
     """End to end: the identifiers the generator DERIVES and emits (method names, APIClient tag attributes incl. keyword-like tags and the
     tag `config`, module/class names) are usable - the package parses, every tag attribute is a non-keyword identifier that yields its tag
@@ -211,9 +217,14 @@ def e2e_identifiers(run, ctx, known) -> None:
         doc = gs.gen_spec(rr, gs.Opts(mainstream=True, max_ops=5, multi_tags=False, always_opid=(i % 2 == 0), streaming=False))
         # make sure the keyword-like / self-clashing tags occur
         ops = [op for it in doc["paths"].values() for m, op in it.items() if m != "parameters" and isinstance(op, dict)]
-        for op, t in zip(ops, rr.sample(["import", "global", "config", "class", "async", "None"], min(len(ops), 2))):
+        # (F64 repaired: the tags named like APIClient's own members are ordinary inputs now)
+        for op, t in zip(ops, rr.sample(["import", "global", "config", "class", "async", "None"] + C07.FORMER_F64_TAGS, min(len(ops), 2))):
             op["tags"] = [t]
         cases.append({"id": f"c20-e2e-{i}", "doc": doc, "strategy": ["operationId", "clean", "path"][i % 3], "fmt": "json", "dup_ids": False, "int_status_keys": False})
+    # F64 repaired: the former witnesses (tags request / close / transport / base-url / self in one document)
+    for i in range(ctx.budget(2, 6)):
+        cases.append({"id": f"c20-e2e-former-F64-{i}", "doc": C07.former_f64_doc(i), "strategy": ["operationId", "clean", "path"][i % 3], "fmt": "json",
+                      "dup_ids": False, "int_status_keys": False})
     # F4 repaired: a parameter declared at path level AND at operation level (same name, same `in`) is ONE argument of the method - the
     # former witness and the same feature injected into generated documents (a duplicate argument is a SyntaxError: a violation)
     from . import C01
@@ -232,8 +243,7 @@ def e2e_identifiers(run, ctx, known) -> None:
         run.cov["traces_validated_against_impl"] += 1
         if not res.get("gen_ok"):
             continue
-        fails = [(c, m) for c, m in C07.judge(case, res) if c in ("apiclient-property-name", "apiclient-unreachable", "method-name")
-                 or (c == "does-not-import" and "SyntaxError" in m)]
+        fails = [(c, m) for c, m in C07.judge(case, res) if c in E2E_CLASSES or (c == "does-not-import" and "SyntaxError" in m)]
         for cls, msg in fails[:2]:
             if len(run.violations) < 5:
                 run.violation("input", {"f": "e2e", "doc": case["doc"], "strategy": case["strategy"]}, observed=msg,
@@ -368,7 +378,7 @@ def replay(run: Run, ctx, rec) -> bool:
         from . import C07
         c = {"id": "replay", "doc": case["doc"], "strategy": case.get("strategy", "operationId"), "fmt": "json", "dup_ids": False, "int_status_keys": False}
         res = _e2e.run_cases("vf.props.C07:case_fn", [c], workers=1)[0]
-        return bool(res.get("gen_ok") and [1 for cl, m in C07.judge(c, res) if cl in ("apiclient-property-name", "apiclient-unreachable", "method-name") or (cl == "does-not-import" and "SyntaxError" in m)])
+        return bool(res.get("gen_ok") and [1 for cl, m in C07.judge(c, res) if cl in E2E_CLASSES or (cl == "does-not-import" and "SyntaxError" in m)])
     if f in ("sanitize_class_name", "sanitize_method_name", "sanitize_module_name"):
         return not valid_ident(getattr(NS, f)(s))
     if f == "enum member name":
